@@ -175,7 +175,7 @@ func (o *ObjectSchema) unserializeInlinedDataToMap(data any) (map[string]any, er
 		unserializedProperty, err := property.Unserialize(data)
 		if err != nil {
 			return nil, &ConstraintError{
-				Message: fmt.Sprintf("error while unserializing single inlined property %s for object %s (%q);"+
+				Message: fmt.Sprintf("error while unserializing single inlined property %s for object %s (%v);"+
 					"fix the property or specify the object as a map",
 					fieldName, o.ID(), err),
 			}
